@@ -45,6 +45,14 @@ class NP:
         # A1: floating-point traps are invisible in real arithmetic
         yield
 
+    @staticmethod
+    def isclose(a, b, rtol=1e-05, atol=1e-08, equal_nan=False):
+        """numpy's definition for finite values, over the reals: |a - b| <= atol + rtol * |b| (scalars only)"""
+        if _arr(a) or _arr(b):
+            raise Unsupported("isclose on arrays")
+        a_, b_ = SR.lift(a), SR.lift(b)
+        return SB(abs(a_ - b_).e <= (SR(atol) + SR(rtol) * abs(b_)).e)
+
     # ---- elementwise
     @staticmethod
     def exp(x):
